@@ -65,6 +65,7 @@ var c02Recorders = map[string]bool{
 
 func runC02(r *fw.Run) {
 	defer c02CopyPreserves(r)
+	defer c02UnmergeablePayloadsStaySoft(r)
 	defer c02StringContentNeverPrintedRaw(r)
 	defer c02BinarySearchNeedsSortedWriter(r)
 	defer c02ErrorPathNotDoubled(r)
@@ -1204,4 +1205,78 @@ func receiverObj(fi *fw.FuncInfo) types.Object {
 		return nil
 	}
 	return fi.Info().ObjectOf(fi.Decl.Recv.List[0].Names[0])
+}
+
+// c02UnmergeablePayloadsStaySoft (R14): whatever a subgraph answers, the client receives one well-formed GraphQL response:
+// a payload the gateway cannot use becomes an entry of `errors` and null data for the positions it was meant for. A Go
+// error returned by Loader.mergeResult aborts the whole operation instead — the resolver writes nothing at all. The merge
+// of the subgraph's data into the response tree (astjson.MergeValuesWithPath) fails for payloads only a subgraph controls
+// (`{"data":[1,2]}`, `{"data":"str"}` on a root fetch, an entity that echoes a key with another JSON kind), so its error
+// must not become the function's error: no return statement of mergeResult carries an error that derives from a merge
+// failure. (On today's tree three do; they are known findings, see DESIGN §4 K9.)
+func c02UnmergeablePayloadsStaySoft(r *fw.Run) {
+	p := r.Prog
+	r.Rule("C02-R14", "Loader.mergeResult never returns a Go error that derives from a failed merge of subgraph-controlled data (astjson.MergeValues…): an unusable payload becomes an entry of errors, not the failure of the whole operation")
+	fi := p.Func("resolve", "Loader.mergeResult")
+	if fi == nil {
+		r.Error("C02-R14: Loader.mergeResult not found")
+		return
+	}
+	info := fi.Info()
+	isMerge := func(e ast.Expr) bool {
+		c, isCall := ast.Unparen(e).(*ast.CallExpr)
+		if !isCall {
+			return false
+		}
+		fn := fw.Callee(info, c)
+		return fn != nil && strings.HasPrefix(fn.Name(), "MergeValues") && fn.Pkg() != nil && strings.HasSuffix(fn.Pkg().Path(), "/astjson")
+	}
+	// path-sensitive: an error variable holds a merge failure from the assignment of a merge call until it is re-assigned
+	mergeErr := map[types.Object]bool{}
+	n := 0
+	seen := map[token.Pos]bool{}
+	in := fw.NewInterp(fi)
+	in.H = fw.Hooks{
+		Lit: func(l *ast.FuncLit, ctx fw.LitCtx, st *fw.State) fw.LitMode { return fw.LitSkip },
+		Node: func(nd ast.Node, st *fw.State) {
+			switch x := nd.(type) {
+			case *ast.AssignStmt:
+				fromMerge := len(x.Rhs) == 1 && isMerge(x.Rhs[0])
+				for i, l := range x.Lhs {
+					id, isID := l.(*ast.Ident)
+					if !isID || id.Name == "_" || info.ObjectOf(id) == nil {
+						continue
+					}
+					if fromMerge && i == len(x.Lhs)-1 {
+						mergeErr[info.ObjectOf(id)] = true
+						st.Set("merge-err:" + id.Name)
+					} else {
+						st.Kill("merge-err:" + id.Name)
+					}
+				}
+			case *ast.ReturnStmt:
+				if !in.Final() || len(x.Results) != 1 || seen[x.Pos()] {
+					return
+				}
+				derives := false
+				fw.WalkAll(x.Results[0], func(m ast.Node) bool {
+					if id, isID := m.(*ast.Ident); isID && mergeErr[info.ObjectOf(id)] && st.May("merge-err:"+id.Name) {
+						derives = true
+					}
+					return true
+				})
+				if !derives {
+					return
+				}
+				seen[x.Pos()] = true
+				n++
+				r.Fail("C02-R14", "Loader.mergeResult/merge-failure-returned#"+itoa(n), p.Pos(x.Pos()), "a failed merge of subgraph data in Loader.mergeResult is rendered as an error entry",
+					"the error of merging the subgraph's data is returned as the error of mergeResult: the resolver aborts and the client receives no response at all — for a payload only the subgraph controls (`{\"data\":[1,2]}` on a root fetch, an entity echoing \"id\":11 where the parent holds \"id\":\"11\")")
+			}
+		},
+	}
+	in.Run(nil)
+	if n == 0 {
+		r.Pass("C02-R14", "Loader.mergeResult/no-merge-failure-returned", p.Pos(fi.Decl.Pos()), "no return of Loader.mergeResult carries the error of a failed merge ("+itoa(len(mergeErr))+" merge error variables)", len(mergeErr) > 0)
+	}
 }
